@@ -571,6 +571,13 @@ func (sp *subProcess) run(ctx context.Context, out tracing.ITracer) {
 					traces := sp.subTracer.Subscribe()
 					defer sp.subTracer.Unsubscribe(traces)
 
+					// One completion monitor per activation: the sub-process may be entered
+					// again (in a loop) after it has completed.
+					monitorCtx, stopMonitor := context.WithCancel(ctx)
+					defer stopMonitor()
+					sender := sp.subTracer.RegisterSender()
+					go sp.ceaseFlowMonitor(sp.subTracer)(monitorCtx, sender)
+
 					if err := sp.startAll(ctx); err != nil {
 						subProcessId := ""
 						if pid, present := sp.element.Id(); present {
@@ -619,12 +626,7 @@ func (sp *subProcess) run(ctx context.Context, out tracing.ITracer) {
 
 func (sp *subProcess) NextAction(ctx context.Context, flow Flow) chan IAction {
 	if sp.active.CompareAndSwap(0, 1) {
-		// flow nodes
-		// StartAll cease flow monitor
-		sender := sp.subTracer.RegisterSender()
-		tracer := sp.wr.tracer
-		go sp.ceaseFlowMonitor(sp.subTracer)(ctx, sender)
-		go sp.run(ctx, tracer)
+		go sp.run(ctx, sp.wr.tracer)
 	}
 
 	response := make(chan IAction, 1)
